@@ -195,46 +195,71 @@ import sys, json, numpy as np
 from fractions import Fraction as F
 w = json.load(sys.stdin)
 from pyiga import bspline
-kvq = [F(x) for x in w['kv']]; p = w['p']; u = F(w['u'])
+kvq = [F(x) for x in w['kv']]; p = w['p']
+US = [F(x) for x in (w.get('us') or [w['u']])]
 kv = bspline.KnotVector(np.array([float(x) for x in kvq]), p)
 n = kv.numdofs
-def N(i, q):
+def N(u, i, q):
     if q == 0:
         lo, hi = kvq[i], kvq[i+1]
         return F(1) if (lo <= u < hi) or (u == kvq[-1] and lo < hi and hi == kvq[-1]) else F(0)
     d1 = kvq[i+q] - kvq[i]; d2 = kvq[i+q+1] - kvq[i+1]
-    return (0 if d1 == 0 else (u - kvq[i]) / d1 * N(i, q-1)) + (0 if d2 == 0 else (kvq[i+q+1] - u) / d2 * N(i+1, q-1))
-def dN(i, k, q):
-    if k == 0: return N(i, q)
+    return (0 if d1 == 0 else (u - kvq[i]) / d1 * N(u, i, q-1)) + (0 if d2 == 0 else (kvq[i+q+1] - u) / d2 * N(u, i+1, q-1))
+def dN(u, i, k, q):
+    if k == 0: return N(u, i, q)
     if q == 0: return F(0)
     d1 = kvq[i+q] - kvq[i]; d2 = kvq[i+q+1] - kvq[i+1]
-    return (0 if d1 == 0 else q / d1 * dN(i, k-1, q-1)) - (0 if d2 == 0 else q / d2 * dN(i+1, k-1, q-1))
-nd = w['numderiv']; uf = float(u)
-ref = np.array([[float(dN(i, k, p)) for i in range(n)] for k in range(nd + 1)])
+    return (0 if d1 == 0 else q / d1 * dN(u, i, k-1, q-1)) - (0 if d2 == 0 else q / d2 * dN(u, i+1, k-1, q-1))
+nd = w['numderiv']
 bad = []
+def close(got, ref):
+    # "to rounding accuracy", row by row relative to the size of the row (derivatives on long spans are tiny but not zero)
+    got = np.asarray(got, dtype=float); ref = np.asarray(ref, dtype=float)
+    return got.shape == ref.shape and np.all(np.abs(got - ref) <= 1e-7 * np.abs(ref).max() + 1e-300) if ref.size else got.shape == ref.shape
 try:
-    first = kv.first_active_at(uf)
-    res = np.asarray(bspline.active_deriv(kv, uf, nd))
-    got = np.zeros((nd + 1, n)); got[:, first:first+p+1] = res
-    scale = 1 + np.abs(ref).max()
-    if not np.allclose(got, ref, rtol=1e-7, atol=1e-9 * scale): bad.append('active_deriv')
-    sv = np.array([bspline.single_ev(kv, i, uf) for i in range(n)])
-    if not np.allclose(sv, ref[0], atol=1e-9): bad.append('single_ev')
-    C = bspline.collocation(kv, np.array([uf])).toarray()[0]
-    if not np.allclose(C, ref[0], atol=1e-9): bad.append('collocation')
-    Cd = [m.toarray()[0] for m in bspline.collocation_derivs(kv, np.array([uf]), derivs=min(nd, 2))]
-    for d, row in enumerate(Cd):
-        if not np.allclose(row, ref[d], rtol=1e-7, atol=1e-9 * scale): bad.append('collocation_derivs[%d]' % d)
+    REF = [np.array([[float(dN(u, i, k, p)) for i in range(n)] for k in range(nd + 1)]) for u in US]
+    for u, ref in zip(US, REF):
+        uf = float(u)
+        first = kv.first_active_at(uf)
+        res = np.asarray(bspline.active_deriv(kv, uf, nd))
+        got = np.zeros((nd + 1, n)); got[:, first:first+p+1] = res
+        if not all(close(got[k], ref[k]) for k in range(nd + 1)): bad.append('active_deriv')
+        sv = np.array([bspline.single_ev(kv, i, uf) for i in range(n)])
+        if not close(sv, ref[0]): bad.append('single_ev')
+        C = bspline.collocation(kv, np.array([uf])).toarray()[0]
+        if not close(C, ref[0]): bad.append('collocation')
+        Cd = [m.toarray()[0] for m in bspline.collocation_derivs(kv, np.array([uf]), derivs=min(nd, 2))]
+        for d, row in enumerate(Cd):
+            if not close(row, ref[d]): bad.append('collocation_derivs[%d]' % d)
+    # array forms with the nodes in the given order (also: reversed, and a back-and-forth order over further points)
+    orders = [list(range(len(US)))]
+    if len(US) > 1: orders.append(orders[0][::-1])
+    br = sorted(set(kvq)); extra = [(a + b) / 2 for a, b in zip(br, br[1:])]
+    PTS = US + extra; REFX = REF + [np.array([[float(dN(u, i, k, p)) for i in range(n)] for k in range(nd + 1)]) for u in extra]
+    zig = sorted(range(len(PTS)), key=lambda j: PTS[j]); zig = zig[::2] + zig[1::2][::-1]
+    for order, pts, refs in [(o, US, REF) for o in orders] + [(zig, PTS, REFX), (zig[::-1], PTS, REFX)]:
+        arr = np.array([float(pts[j]) for j in order])
+        A = np.asarray(bspline.active_deriv(kv, arr, nd))        # (nd+1, p+1, npts)
+        Cm = bspline.collocation(kv, arr).toarray()
+        Cds = [m.toarray() for m in bspline.collocation_derivs(kv, arr, derivs=min(nd, 2))]
+        for r, j in enumerate(order):
+            first = kv.first_active_at(float(pts[j]))
+            got = np.zeros((nd + 1, n)); got[:, first:first+p+1] = A[:, :, r]
+            if not all(close(got[k], refs[j][k]) for k in range(nd + 1)): bad.append('active_deriv (array argument, node order %s)' % order)
+            if not close(Cm[r], refs[j][0]): bad.append('collocation (array argument, node order %s)' % order)
+            for d in range(len(Cds)):
+                if not close(Cds[d][r], refs[j][d]): bad.append('collocation_derivs[%d] (array argument, node order %s)' % (d, order))
 except Exception as e:
     bad.append('exception %s: %s' % (type(e).__name__, e))
-print(json.dumps({'reproduced': bool(bad), 'bad': bad}))
+print(json.dumps({'reproduced': bool(bad), 'bad': sorted(set(bad))[:8]}))
 '''
 
 
 def witness_from(model, kvz, p, us, numderiv):
     kvv = [sx.model_value(model, t) for t in kvz]
-    return {'kv': [str(F(v)) for v in kvv], 'p': p, 'numderiv': numderiv,
-            'u': str(F(sx.model_value(model, us[0] if isinstance(us, list) else us)))}
+    ul = us if isinstance(us, list) else [us]
+    return {'kv': [str(F(v)) for v in kvv], 'p': p, 'numderiv': numderiv, 'u': str(F(sx.model_value(model, ul[0]))),
+            'us': [str(F(sx.model_value(model, t))) for t in ul]}
 
 
 def robustify(run, h_factory, kvz, pre):
